@@ -643,6 +643,13 @@ func (obj *Package) Undefine(name string) {
 				vv.Pkg = obj
 				vv.Export = true
 				obj.vars[name] = vv
+				for _, u := range obj.Users {
+					u.mu.Lock()
+					if xv := u.vars[name]; xv == nil {
+						u.vars[name] = vv
+					}
+					u.mu.Unlock()
+				}
 			}
 		} else if fi.Pkg != nil {
 			// An inherited function is undefined where it lives.
